@@ -320,12 +320,14 @@ class CFG:
         start = start or self.entry
         ex = list(exits) if exits is not None else [self.exit]
         ign = set(ignore_labels)
-        INF = 10 ** 6
+        ex_ids = {e.id for e in ex}
         state: Dict[int, Tuple[int, int]] = {start.id: (0, 0)}
         work = [start]
         while work:
             n = work.pop()
             lo, hi = state[n.id]
+            if n.id in ex_ids and n is not start:
+                continue  # exits are terminal for this query
             inc = 1 if pred(n) else 0
             olo, ohi = lo + inc, min(hi + inc, cap)
             for (m, lab) in n.succ:
